@@ -8,6 +8,8 @@
 (*        the loop: TLC runs the machine on the recorded bytes and demands the value of the first            *)
 (*        accepting iteration and the exact number of bytes consumed; if the scripted prefix never accepts   *)
 (*        ("exhausted") the call must have consumed all of it without panicking.                           *)
+(*  {"ev":"genpoly","n","bytes":[consumed],"consumed","exhausted","out":[n ints],"panic"}                          *)
+(*        key generation's gen_poly: n sums of 4096/n consecutive sampler outputs on one stream (SpecGenPoly)        *)
 (* A panic never conforms (totality).                                                                 *)
 EXTENDS SamplerZ, TraceLib
 VARIABLES l, bad
@@ -22,6 +24,10 @@ Judge(e) ==
   ELSE IF e.ev = "berexp" THEN
     LET b == SpecBerExp(FFromWords(e.x), FFromWords(e.ccs), e.bytes)
     IN [ok |-> b.ok /\ e.res = b.res, branch |-> "berexp-s" \o ToString(IF b.s > 64 THEN 65 ELSE b.s) \o (IF b.res THEN "-T" ELSE "-F"), detail |-> <<b.res, b.s, b.z>>]
+  ELSE IF e.ev = "genpoly" THEN
+    LET r == SpecGenPoly(e.n, e.bytes)
+        ok == ~e.exhausted /\ r.ok /\ r.done /\ e.out = r.out /\ e.consumed = r.used /\ Len(e.bytes) = r.used
+    IN [ok |-> ok, branch |-> "genpoly-n" \o ToString(e.n), detail |-> <<r.done, r.used, Len(r.out)>>]
   ELSE
     LET r == SpecSamplerZ(FFromWords(e.mu), FFromWords(e.sigma), FFromWords(e.sigmin), e.bytes)
         ok == IF e.exhausted THEN ~r.done /\ r.ok      \* the prefix never accepts: the code kept drawing, as specified
